@@ -10,14 +10,17 @@ from .containers import RealContainers
 from .refmodels import RefPQ, RefPos
 
 PROP = "C17"
-LEAN_TARGETS = ["Asynkit.Props.C17", "Asynkit.Lemmas.GenEq"]
-PROPS_FILES = ["Asynkit/Props/C17.lean", "Asynkit/Lemmas/GenEq.lean"]
+LEAN_TARGETS = ["Asynkit.Props.C17", "Asynkit.Lemmas.GenEq", "Asynkit.Lemmas.GenEqPosPQ"]
+PROPS_FILES = ["Asynkit/Props/C17.lean", "Asynkit/Lemmas/GenEq.lean", "Asynkit/Lemmas/GenEqPosPQ.lean"]
 DRIVERS = ["PQ"]
 TRUSTED = [
     "Lean 4.33 kernel; axioms ⊆ {propext, Classical.choice, Quot.sound} (audited per theorem each run)",
     "hand-written models Asynkit/Model/{Heap,PQ,PosPQ}.lean, tied to src/asynkit/tools.py and "
     "experimental/priority.py by the differential correspondence of this run (lean/Drivers/PQ.lean)",
     "translator/py2lean.py for PriEntry.__lt__ / PriorityValue.__lt__ (Gen definitions proved equal to the model's)",
+    "translator/pospq2lean.py re-translates every method of PosPriorityQueue from the source on each run "
+    "(Gen/PosPQ.lean, over the PQ model's operations); Lemmas/GenEqPosPQ.lean proves each equal to Model/PosPQ "
+    "(trusted: the statement-level translator, the self._pq.<m> -> PQ.<m> binding, by-value PriorityValue objects)",
     "CPython heapq meets its documented contract (HeapLib.Lawful); the executable model transcribes "
     "heapq's sift loops and is compared array-for-array with the real _pq (layout statistic)",
     "list.sort is a stable sort by __lt__",
